@@ -71,4 +71,10 @@ least one masking site -/
 theorem nn_mask_sites_present :
     oracleCovered.all (fun f => nn_mask_sites.any (fun s => s.func == f)) = true := by decide +kernel
 
+/-- the classes that contain masking sites keep **no state between calls**: no attribute write outside
+`__init__`, no module-level container written from a method, no caching decorator — so a mask (or a
+comparison with it) cannot survive from one call to the next and every call is a function of its
+arguments and the parameters only (what `Mask.fwdOp` / `bwdOp` / `aStarOp` / `loglik` model) -/
+theorem nn_state_writes_none : nn_state_writes = [] := by decide
+
 end DirectVerif.Bridge.C03
